@@ -245,10 +245,10 @@ impl Property for C09Prop {
                 // the index inside a stage of an iterator pipeline that is collected (the gather idiom): an
                 // index out of bounds ends the collection with the error, not with what was gathered so far
                 {
-                    let text = format!("f := (s: {param_ty}, i: int) -> any {{ g := [0, i]~ @ (j: int) -> any {{ return s[j * 1]; }} $]; return (g[1], std.len(s)); }}; f({seq_text}, {})", bound_text(Some(i)));
+                    let text = format!("f := (s: {param_ty}, i: int) -> any {{ g := [0, i]~ @ (j: int) -> any {{ return s[j * 1]; }} $]; return (g[std.len(g) - 1], std.len(s), std.len(g)); }}; f({seq_text}, {})", bound_text(Some(i)));
                     stats.eval();
                     let o = run::run_text(&text, true);
-                    let want: Result<Json, &'static str> = if n == 0 { Err("IndexOutOfBounds") } else { both.clone() };
+                    let want: Result<Json, &'static str> = if n == 0 { Err("IndexOutOfBounds") } else { expected.clone().map(|e| lit::tuple(vec![e, json!(n), json!(2)])) };
                     if let Err(why) = compare(&o, &want, true) {
                         return fail("C09:at:gather", format!("`{text}`: {why}"));
                     }
